@@ -168,7 +168,8 @@ type pub struct {
 func compText(c enc.Component) string { return common.CompText(c) }
 
 func gen(g *common.Gen) {
-	r := g.R
+	// decorrelate consecutive seeds (common.NewRand(s) and NewRand(s+1) are one stream shifted by a draw)
+	r := common.NewRand(g.R.U64() ^ 0x5851F42D4C957F2D)
 	seed := uint64(1)
 	for h := 0; h < g.N; h++ {
 		serve := common.Pick(r, []string{"mem", "bolt"})
